@@ -10,6 +10,7 @@ ids=$(python3 -c "import json;print(' '.join(c['property_id'] for c in json.load
 bin/vcheck __build__ >/dev/null 2>&1
 mkdir -p .work/matrix
 for d in $pat; do
+  [ -f "$d/patch.diff" ] || continue
   n=$(basename "$d")
   if ! git -C "$REPO" apply "$(realpath "$d/patch.diff")" 2>/dev/null; then
     if ! git -C "$REPO" apply -3 "$(realpath "$d/patch.diff")" 2>/dev/null; then echo "$n: PATCH DOES NOT APPLY"; git -C "$REPO" reset -q --hard HEAD; continue; fi
